@@ -44,6 +44,11 @@ pub fn exec_topo(input: &Value) -> (Value, Value) {
     for d in strs(input, "defs") {
         g.add_type_definition(d.clone(), std::path::PathBuf::from(format!("src/{}.rs", d)));
     }
+    // … and so is what has been recorded as resolved about them (a struct, an enum, with or without fields)
+    for (i, d) in strs(input, "resolved").into_iter().enumerate() {
+        g.add_resolved_type(d.clone(), tauri_typegen::models::StructInfo {
+            name: d.clone(), fields: Vec::new(), file_path: format!("src/{}.rs", d), is_enum: i % 2 == 0, serde_rename_all: None });
+    }
     let types: HashSet<String> = strs(input, "request").into_iter().collect();
     let types_order: Vec<String> = types.iter().cloned().collect();
     let deps_order: Vec<Value> =
@@ -187,7 +192,8 @@ fn topo_case_defs(out: &mut Out, n: usize, adj: &[u32], subset: u32, defs: u32, 
     }
     let request: Vec<String> = (0..n).filter(|i| subset >> i & 1 == 1).map(name).collect();
     let d: Vec<String> = (0..n).filter(|i| defs >> i & 1 == 1).map(name).collect();
-    out.case("topo", json!({"graph": graph, "request": request, "defs": d}), json!({"n": n, "tag": tag}));
+    // the names with a recorded definition also get a resolved record (alternately an enum and a struct)
+    out.case("topo", json!({"graph": graph, "request": request, "defs": d, "resolved": d}), json!({"n": n, "tag": tag}));
 }
 
 pub fn run(out: &mut Out, tier: &str, rng: &mut Rng) {
@@ -246,6 +252,15 @@ pub fn run(out: &mut Out, tier: &str, rng: &mut Rng) {
         let es: Vec<Value> = (0..len - 1).map(|i| json!([format!("L{:03}", i), format!("L{:03}", i + 1)])).collect();
         out.case("kahn", json!({"nodes": nodes, "edges": es, "order": "edges_first"}), json!({"n": len, "tag": "chain"}));
         out.case("kahn", json!({"nodes": nodes, "edges": es}), json!({"n": len, "tag": "chain"}));
+    }
+    // dense cyclic graphs: every type depends on every type (also on itself): n(n+1)/2 back edges in one sort
+    for n in [6usize, 14, 15, 16, 24] {
+        let names: Vec<String> = (0..n).map(|i| format!("Q{:02}", i)).collect();
+        let graph: Vec<Value> = names.iter().map(|a| json!([a, names])).collect();
+        out.case("topo", json!({"graph": graph, "request": names}), json!({"n": n, "tag": "clique"}));
+        out.case("topo", json!({"graph": graph, "request": [names[n / 2]]}), json!({"n": n, "tag": "clique"}));
+        let es: Vec<Value> = names.iter().flat_map(|a| names.iter().filter(move |b| *b != a).map(move |b| json!([a, b]))).collect();
+        out.case("kahn", json!({"nodes": names, "edges": es}), json!({"n": n, "tag": "clique"}));
     }
     // combs: a chain in which every link also depends on a leaf of its own (more than 32 types, leaves interleaved with the
     // chain in every visiting order), and rings of nodes with long non-ASCII names (whatever is reported about a cycle)
